@@ -13,7 +13,7 @@ Trace == ndJsonDeserialize("trace.ndjson")
 
 Chk(c, prop, aspect, detail) == IF c THEN TRUE ELSE PrintT(<<"VIOL", tid, (IF "i" \in DOMAIN Trace[l] THEN Trace[l].i ELSE 0), prop, aspect, detail>>)
 
-NoStart == [mode |-> "none", target |-> "", existed |-> 0, oldLen |-> 0, newLen |-> 0, outdir |-> <<>>, nboards |-> 0]
+NoStart == [mode |-> "none", target |-> "", alt |-> "", existed |-> 0, oldLen |-> 0, newLen |-> 0, outdir |-> <<>>, nboards |-> 0]
 
 Apply(f, e) ==
   CASE e.call = "open"     -> SysOpen(f, e.path, e.creat = 1, e.excl = 1, e.trunc = 1, e.mode)
@@ -33,7 +33,9 @@ Sys(e) ==
   /\ fs' = f2
   /\ produced' = produced \cup Produces(e)
   /\ st.mode \in {"fmt", "render"} =>
-       Chk(AtomicAt(f2, st.target, st.existed = 1, st.newLen), "C48", "crash-after-this-call-leaves-partial-file", <<e.call, e.path, Get(f2, st.target).len>>)
+       /\ Chk(AtomicAt(f2, st.target, st.existed = 1, st.newLen), "C48", "crash-after-this-call-leaves-partial-file", <<e.call, e.path, Get(f2, st.target).len>>)
+       \* the target is a symbolic link: the file it points to is "the file" as well
+       /\ Chk(st.alt = "" \/ AtomicAt(f2, st.alt, TRUE, st.newLen), "C48", "crash-after-this-call-leaves-partial-file-behind-the-link", <<e.call, e.path, Get(f2, st.alt).len>>)
   /\ st.mode = "boards" =>
        /\ Chk(Modifies(e) => Inside(e.segs) /\ (e.call \in {"rename", "link"} => Inside(e.tosegs)), "C34", "syscall-outside-output-location", <<e.call, e.path>>)
        /\ Chk(Produces(e) \cap produced = {}, "C34", "output-file-produced-twice", <<e.call, Produces(e)>>)
@@ -42,7 +44,7 @@ Sys(e) ==
 Exit(e) ==
   /\ st.mode \in {"fmt", "render"} =>
        /\ Chk(e.code = 0 => e.finalIsNew = 1, "C48", "completed-run-leaves-new-content", e.code)
-       /\ Chk(e.code = 0 => IsNew(Get(fs, st.target), st.newLen), "C48", "model-vs-disk-after-run", Get(fs, st.target))
+       /\ Chk((e.code = 0 /\ st.alt = "") => IsNew(Get(fs, st.target), st.newLen), "C48", "model-vs-disk-after-run", Get(fs, st.target))
   /\ st.mode = "boards" =>
        /\ Chk(\A k \in 1..Len(e.changed) : Inside(e.changed[k]), "C34", "file-outside-output-location", e.changed)
        /\ Chk(Len(e.missing) = 0, "C34", "deleted-outside-output-location", e.missing)
@@ -52,7 +54,7 @@ Exit(e) ==
 Killed(e) ==
   LET diskOK == e.isOld = 1 \/ e.isNew = 1 \/ (e.exists = 0 /\ st.existed = 0) IN
   /\ Chk(diskOK, "C48", "killed-process-left-partial-file", <<e.exists, e.len>>)
-  /\ Chk(diskOK <=> AtomicAt(fs, st.target, st.existed = 1, st.newLen), "C48", "model-vs-disk-after-kill", <<e.len, Get(fs, st.target)>>)
+  /\ Chk(st.alt # "" \/ (diskOK <=> AtomicAt(fs, st.target, st.existed = 1, st.newLen)), "C48", "model-vs-disk-after-kill", <<e.len, Get(fs, st.target)>>)
   /\ UNCHANGED <<tid, fs, st, produced>>
 
 Init == l = 1 /\ tid = 0 /\ fs = <<>> /\ st = NoStart /\ produced = {}
@@ -61,9 +63,9 @@ Next ==
   /\ l' = l + 1
   /\ LET e == Trace[l] IN
        CASE e.ev = "reset"  -> tid' = e.tid /\ fs' = <<>> /\ st' = NoStart /\ produced' = {}
-         [] e.ev = "start"  -> /\ st' = [mode |-> e.mode, target |-> e.target, existed |-> e.existed, oldLen |-> e.oldLen,
+         [] e.ev = "start"  -> /\ st' = [mode |-> e.mode, target |-> e.target, alt |-> e.alt, existed |-> e.existed, oldLen |-> e.oldLen,
                                          newLen |-> e.newLen, outdir |-> e.outdir, nboards |-> e.nboards]
-                               /\ fs' = IF e.existed = 1 THEN [p \in {e.target} |-> [len |-> e.oldLen, gen |-> "old", mode |-> 0]] ELSE <<>>
+                               /\ fs' = IF e.existed = 1 THEN [p \in ({e.target, e.alt} \ {""}) |-> [len |-> e.oldLen, gen |-> "old", mode |-> 0]] ELSE <<>>
                                /\ UNCHANGED <<tid, produced>>
          [] e.ev = "sys"    -> Sys(e)
          [] e.ev = "exit"   -> Exit(e)
